@@ -85,8 +85,11 @@ ORDERS = {
 }
 
 
-def make_lonlat(oid, order, lon_hi=180, centres=None, tiers=("quick", "thorough"), cost=2):
-    """source supplies node lon/lat (longitudes possibly in 0..360) and optionally centres as lon/lat"""
+def make_lonlat(oid, order, lon_hi=180, centres=None, tiers=("quick", "thorough"), cost=2, edge_centres=None):
+    """source supplies node lon/lat (longitudes possibly in 0..360) and optionally face centres (and edge centres + edge table) as lon/lat"""
+    _, EDGES = C.ref_edges(ROWS)
+    EDGES = sorted(sorted(p) for p in EDGES)
+
     def setup(ctx):
         ctx.const("order", order); ctx.const("lon_hi", lon_hi); ctx.const("centres", centres)
         lon = [z3.Real(f"lon_{i}") for i in range(N_NODE)]
@@ -105,14 +108,30 @@ def make_lonlat(oid, order, lon_hi=180, centres=None, tiers=("quick", "thorough"
             for v in flat:
                 ctx.solver.add(v >= -90, v <= 90)
             ctx.eng.declare("flon", flon); ctx.eng.declare("flat", flat)
+        if edge_centres:
+            elon = [z3.Real(f"elon_{i}") for i in range(len(EDGES))]
+            elat = [z3.Real(f"elat_{i}") for i in range(len(EDGES))]
+            for v in elon:
+                ctx.solver.add(v >= (0 if edge_centres == "360" else -180), v <= (360 if edge_centres == "360" else 180))
+            for v in elat:
+                ctx.solver.add(v >= -90, v <= 90)
+            ctx.eng.declare("elon", elon); ctx.eng.declare("elat", elat)
+            ctx.const("edge_centres", edge_centres)
+            EL[0] = (elon, elat)
         return lon, lat, flon, flat
 
-    def build(lon, lat, flon, flat, cl):
+    EL = [None]
+
+    def build(lon, lat, flon, flat, cl, el=None):
         vars_ = {"node_lon": (["n_node"], lon), "node_lat": (["n_node"], lat),
                  "face_node_connectivity": (["n_face", "n_max_face_nodes"], ROWS, C.FN_ATTRS)}
         if flon is not None:
             vars_["face_lon"] = (["n_face"], flon)
             vars_["face_lat"] = (["n_face"], flat)
+        if el is not None:
+            vars_["edge_node_connectivity"] = (["n_edge", "two"], EDGES, {"cf_role": "edge_node_connectivity", "_FillValue": C.F, "start_index": 0})
+            vars_["edge_lon"] = (["n_edge"], el[0])
+            vars_["edge_lat"] = (["n_edge"], el[1])
         return cl(vars_)
 
     def run(ctx, inp):
@@ -121,7 +140,7 @@ def make_lonlat(oid, order, lon_hi=180, centres=None, tiers=("quick", "thorough"
         sc.NL_UF[0] = True
         sc.MOD_MODE[0] = "witness"          # the functional form of the longitude wrap makes these queries 40x slower (and erratic)
         try:
-            g = build(lon, lat, flon, flat, C.clone_grid_from)
+            g = build(lon, lat, flon, flat, C.clone_grid_from, EL[0] if edge_centres else None)
             for name in ORDERS[order]:
                 getattr(g, name)
             got = {n: _vals(getattr(g, n)) for n in ("node_lon", "node_lat", "node_x", "node_y", "node_z", "face_lon", "face_lat", "face_x", "face_y", "face_z",
@@ -162,6 +181,16 @@ def make_lonlat(oid, order, lon_hi=180, centres=None, tiers=("quick", "thorough"
                 cl.append(z3.And(got["face_x"][f] == ux[0], got["face_y"][f] == ux[1], got["face_z"][f] == ux[2]))
             ctx.prove("face centre supplied as lon/lat: reported in range, and face_x/y/z is the unit vector of those degrees", z3.And(*cl),
                       regions={"supplied_centre_degrees_as_radians": True})
+        if edge_centres:
+            elon, elat = EL[0]
+            cl = []
+            for e in range(len(EDGES)):
+                cl.append(z3.And(got["edge_lon"][e] >= -180, got["edge_lon"][e] <= 180, got["edge_lat"][e] == elat[e],
+                                 z3.Or(got["edge_lon"][e] == elon[e], got["edge_lon"][e] == elon[e] - 360, got["edge_lon"][e] == elon[e] + 360)))
+                ux = _unit(got["edge_lon"][e], got["edge_lat"][e])
+                cl.append(z3.And(got["edge_x"][e] == ux[0], got["edge_y"][e] == ux[1], got["edge_z"][e] == ux[2]))
+            ctx.prove("edge centre supplied as lon/lat: reported in range, and edge_x/y/z is the unit vector of those degrees", z3.And(*cl))
+            return
         # edge centres: arc midpoint = normalised mean of the two end nodes
         n_edge = en.shape_cap[0]
         cl = []
@@ -174,7 +203,7 @@ def make_lonlat(oid, order, lon_hi=180, centres=None, tiers=("quick", "thorough"
         _prove_lonlat_of_xyz(ctx, "edge", got, n_edge)
 
     def replay(v):
-        g = build(v["lon"], v["lat"], v.get("flon"), v.get("flat"), C.real_grid_from)
+        g = build(v["lon"], v["lat"], v.get("flon"), v.get("flat"), C.real_grid_from, (v["elon"], v["elat"]) if edge_centres else None)
         for name in ORDERS[order]:
             getattr(g, name)
         bad = []
@@ -189,6 +218,10 @@ def make_lonlat(oid, order, lon_hi=180, centres=None, tiers=("quick", "thorough"
         ok, d = _same_point(g.node_lon.values, g.node_lat.values, *_real_unit(v["lon"], v["lat"]))
         if not ok:
             bad.append(f"reported node lon/lat {g.node_lon.values.tolist()} differ from the source {v['lon']}")
+        if edge_centres:
+            ok, d = _same_point(g.edge_lon.values, g.edge_lat.values, *_real_unit(v["elon"], v["elat"]))
+            if not ok:
+                bad.append(f"reported edge centres differ from the supplied ones by {d:.3g}")
         if v.get("flon") is not None:
             ok, d = _same_point(g.face_lon.values, g.face_lat.values, *_real_unit(v["flon"], v["flat"]))
             if not ok:
@@ -380,6 +413,8 @@ def obligations(tier):
         make_lonlat("C04.lonlat.centres180", "xyz_first", centres="180"),
         make_lonlat("C04.lonlat.centres360", "lonlat_first", centres="360"),
         make_lonlat("C04.lonlat360.centres180", "edges_first", lon_hi=360, centres="180"),
+        make_lonlat("C04.lonlat.edge_centres180", "edges_first", edge_centres="180"),
+        make_lonlat("C04.lonlat.edge_centres360", "xyz_first", centres="180", edge_centres="360"),
         make_xyz("C04.xyz.lon_first", "lon_first"),
         make_xyz("C04.xyz.lat_first", "lat_first"),
         make_xyz("C04.xyz.face_first", "face_first", tiers=("thorough",)),
